@@ -3,6 +3,8 @@ import Pcore.Proofs.FilesOnce
 import Pcore.Proofs.FilesPath
 import Pcore.Proofs.FilesGlobal
 import Pcore.Proofs.FilesModule
+import Pcore.Proofs.FilesError
+import Pcore.Proofs.FilesAbsent
 /-!
 # C15 — File-based loading maps names to definition files faithfully
 
@@ -27,8 +29,11 @@ Full statement / proved / missing
 * `C15_name`, `C15_found_sound` (proved, full: the "only if" half of found ⇔ file, and the name clause) — whenever a lookup
   answers `found d`, `d` carries the requested name up to letter case and is justified: it is a core type, or some file of
   the tree that sits where the index points for that name (or for the enclosing type set) defines it.
+* `C15_absent` (proved, FULL: every context loader, name, state and fuel) — when no loader has an origin for the name or
+  any of its prefixes (and its first segment's module has no `init_typeset`), the lookup never answers `found`, reads
+  nothing and changes the caches by nil placeholders only.
 * `C15_found_iff_global`, `C15_absent_global`, `C15_error_global` (proved; PARTIAL with respect to `C15_found_iff_full` /
-  `C15_absent_full` / `C15_error_full`) — the "if" half, absence and error location for the global loader used as the
+  `C15_error_full`) — the "if" half, absence and error location for the global loader used as the
   context's loader, for a name the cache does not hold yet whose first origin is not a type set.
 * `C15_found_iff_module`, `C15_found_iff_dependency`, `C15_module_outcome`, `C15_dependency_outcome` (proved; partial) —
   the same for a module-relative name `Mod::X` through the module's loader and through the dependency loader, when the
@@ -37,6 +42,13 @@ Full statement / proved / missing
   returns — fix 80f753b) is evaluated symbolically; found ⇔ the module's file defines the name, errors name that file,
   the file is the only read.
   `C15_absent_module`: no file anywhere on the route ⇒ `notfound`, no read, placeholders only.
+* `C15_error_no_binding` (proved, full: every loader, context loader, state and fuel) — `instantiate` of a defective file
+  (misnamed, malformed, no definition, unreadable) panics with the error that names the file and leaves the state changed
+  by the read and the placeholder of the REQUESTED name only: no loader gets a definition, in particular not for the name
+  a misnamed file declares.  `C15_error_state_global`: the same for a whole lookup through the global loader.
+  `C15_absent_stays_absent` (proved, full): a name whose key has no source (no core type, no file where the index points
+  for it, no member of a type set that sits at its own place) is never answered `found`, at any position of any lookup
+  sequence — whatever was looked up, found or reported before.
 * missing: the "if" half for deeper names, type sets and ancestors that exist (type-set parent search); it is false as
   stated for layouts that define one name twice (`C15_duplicate_redefine`, known finding C15-duplicate-redefine) and the
   error of a misnamed file carries no line (`C15_misnamed_no_line`, known finding C15-misnamed-no-line).  Termination
@@ -186,11 +198,52 @@ theorem C15_found_iff_global (cfg : Cfg) (hv : cfg.via = .g) (name : Name) (s : 
           exact ⟨k, nm, ⟨rfl, rfl⟩, hk⟩
         · simp [hb, hk]
 
-def C15_absent_full : Prop :=
-  ∀ (cfg : Cfg) (name : Name) (fuel : Nat) (s : St), fuel ≥ 5000 → sysLoad name = none →
-    (∀ l pre, pre ≠ [] → pre <+: name → idx cfg l (keyOf pre) = []) →
-    (loadS fuel cfg s name).1 = .notfound ∧ (loadS fuel cfg s name).2.reads = s.reads ∧
-      ∀ l k d, (loadS fuel cfg s name).2.get l k = some (some d) → s.get l k = some (some d)
+/-- FULL, for every context loader, name, state and fuel: when no loader has an origin for the name or for any of its
+    prefixes (and the module named by its first segment has no `init_typeset`; no prefix is a core type) and no cache holds
+    a definition for them, the lookup never answers `found` (it answers `notfound`, or reports the invalid characters of
+    the name), reads nothing, and changes the caches by nil placeholders only -/
+theorem C15_absent (cfg : Cfg) (name : Name) (hne : name ≠ []) (fuel : Nat) (s : St)
+    (ha : AbsentRoute cfg name) (h0 : NoDef name s) :
+    (∀ d, (loadS fuel cfg s name).1 ≠ .found d) ∧ (loadS fuel cfg s name).2.reads = s.reads ∧
+      Frame s (loadS fuel cfg s name).2 :=
+  absent_loadS ha h0 hne fuel
+
+def absCfg : Cfg :=
+  { mods := ["mymod", "other"], via := .d, tree := [(["env", "types", "thing.pp"], .typ .alias ["Thing"] [])] }
+
+/-- non-vacuity: a nested absent name below a module, through the dependency loader, next to a file that does exist -/
+example : AbsentRoute absCfg ["Other", "Sub", "Nope"] ∧ NoDef ["Other", "Sub", "Nope"] ({} : St) ∧
+    loadS 40 absCfg {} ["Other", "Sub", "Nope"] =
+      (.notfound, (({} : St).put .g ["other", "sub", "nope"] none |>.put (.m "other") ["other", "sub", "nope"] none
+        |>.put .d ["other", "sub", "nope"] none)) := by
+  have hpre : ∀ nm : Name, OnRoute ["Other", "Sub", "Nope"] nm →
+      nm = ["Other"] ∨ nm = ["Other", "Sub"] ∨ nm = ["Other", "Sub", "Nope"] := by
+    intro nm ⟨hne, t, ht⟩
+    match nm, hne, ht with
+    | [], hne, _ => exact absurd rfl hne
+    | [x], _, ht =>
+      simp at ht
+      exact Or.inl (by rw [ht.1])
+    | [x, y], _, ht =>
+      simp at ht
+      exact Or.inr (Or.inl (by rw [ht.1, ht.2.1]))
+    | [x, y, z], _, ht =>
+      simp at ht
+      exact Or.inr (Or.inr (by rw [ht.1, ht.2.1, ht.2.2.1]))
+    | x :: y :: z :: w :: r, _, ht => simp at ht
+  refine ⟨⟨?_, ?_, ?_⟩, ?_, by decide⟩
+  · intro l nm hr
+    cases l with
+    | m mod =>
+      -- the only file lies below `env`: no module indexes it
+      simp [idx, absCfg, fileKeys, relOf, spOf, SmartPath.generic]
+    | g => rcases hpre nm hr with h | h | h <;> subst h <;> decide
+    | d => rcases hpre nm hr with h | h | h <;> subst h <;> decide
+  · intro mod _
+    simp [idx, absCfg, fileKeys, relOf, spOf, SmartPath.generic]
+  · intro nm hr
+    rcases hpre nm hr with h | h | h <;> subst h <;> decide
+  · intro l nm d _ h; cases h
 
 /-- no file: the answer is `notfound`, nothing is read, and the only change is a placeholder for that name -/
 theorem C15_absent_global (cfg : Cfg) (hv : cfg.via = .g) (name : Name) (s : St) (n : Nat)
@@ -376,6 +429,86 @@ example : partsOf ["MYMOD", "thing"] = some ["mymod", lowerS "thing"] ∧ sysLoa
     (loadS 9 (modCfg (.m "mymod")) {} ["Mymod", "Nope"]).1 = .notfound := by
   decide
 
+/-! ## error lookups bind nothing; a name without a source stays absent whatever happened before -/
+
+theorem C15_error_no_binding (cfg : Cfg) (n : Nat) (l : Lid) (name : Name) (p : Path) (ps : List Path) (s : St) (b : Body)
+    (hb : bodyAt cfg.tree p = some b) (hd : Defective b name) (hget : s.get l (keyOf name) = none) :
+    instantiate (n+2) cfg l name (p :: ps) s = .fail (defectErr p b) ((s.put l (keyOf name) none).addRead p) ∧
+    (∀ l' k' d, ((s.put l (keyOf name) none).addRead p).get l' k' = some (some d) → s.get l' k' = some (some d)) := by
+  refine ⟨instantiate_defective cfg n l name p ps s b hb hd hget, ?_⟩
+  intro l' k' d h
+  rw [get_addRead, get_put] at h
+  by_cases hk : (l', k') = (l, keyOf name)
+  · rw [if_pos hk] at h; cases h
+  · rw [if_neg hk] at h; exact h
+
+/-- a whole lookup through the global loader that meets a defective first origin: the error, and the exact state left —
+    the placeholder of the requested name and the read, nothing else -/
+theorem C15_error_state_global (cfg : Cfg) (hv : cfg.via = .g) (name : Name) (s : St) (n : Nat) (p : Path) (ps : List Path)
+    (b : Body) (hsys : sysLoad name = none) (hget : s.get .g (keyOf name) = none)
+    (hi : idx cfg .g (keyOf name) = p :: ps) (hb : bodyAt cfg.tree p = some b) (hd : Defective b name) :
+    loadS (n+7) cfg s name = (.failed (defectErr p b), (s.put .g (keyOf name) none).addRead p) :=
+  global_defective_state cfg hv name s n p ps b hsys hget hi hb hd
+
+/-- the key has no source: no core type, no file where the index points for it, no type set (at its own place) listing it -/
+def NoSource (cfg : Cfg) (k : Key) : Prop :=
+  (∀ e ∈ staticTypes, e.1 ≠ k) ∧ (∀ p, ¬ At cfg p k) ∧
+  (∀ p nm ts t, bodyAt cfg.tree p = some (.typ .typeset nm ts) → t ∈ ts → keyOf (nm ++ [t]) = k → ¬ At cfg p (keyOf nm))
+
+theorem C15_absent_stays_absent (cfg : Cfg) (fuel : Nat) (names : List Name) (i : Nat) (name : Name)
+    (hno : NoSource cfg (keyOf name)) (hn : names[i]? = some name) (d : Def) :
+    (runLoads fuel cfg {} names).1[i]? ≠ some (Outcome.found d) := by
+  intro h
+  obtain ⟨name', hn', hk, hj⟩ := C15_name_fresh cfg fuel names i d h
+  rw [hn] at hn'
+  cases hn'
+  obtain ⟨hstatic, hat, hts⟩ := hno
+  cases hj with
+  | inl hs =>
+    obtain ⟨e, he, hed⟩ := hs
+    have hkeys : ∀ e ∈ staticTypes, keyOf e.2.name = e.1 := by decide
+    apply hstatic e he
+    rw [← hkeys e he, hed, hk]
+  | inr hf =>
+    obtain ⟨p, b, hb, hcase⟩ := hf
+    cases hcase with
+    | inl h1 =>
+      obtain ⟨ts, _, hat1⟩ := h1
+      rw [hk] at hat1
+      exact hat p hat1
+    | inr h2 =>
+      cases h2 with
+      | inl h3 =>
+        obtain ⟨nm, ts, t, j, hb', ht, hd, hat3⟩ := h3
+        rw [hb'] at hb
+        refine hts p nm ts t hb ht ?_ hat3
+        rw [← hk, hd]
+      | inr h4 =>
+        obtain ⟨_, _, hat4⟩ := h4
+        rw [hk] at hat4
+        exact hat p hat4
+
+def wrongCfg : Cfg :=
+  { mods := [], via := .g,
+    tree := [(["env", "types", "real.pp"], .typ .object ["Real"] []),
+             (["env", "types", "wrong.pp"], .typ .alias ["Other"] []),
+             (["env", "types", "wrong2.pp"], .typ .alias ["Real"] [])] }
+
+/-- non-vacuity: `Other` (declared by the misnamed `wrong.pp`, no file of its own) has no source and stays absent after
+    the error; `Real` (declared by the misnamed `wrong2.pp` too) is answered from `real.pp` in both orders, and the error
+    of the misnamed file stays the same -/
+example : Defective (.typ .alias ["Other"] []) ["Wrong"] ∧
+    (runLoads 9 wrongCfg {} [["Other"], ["Wrong"], ["Other"], ["Wrong2"], ["Real"]]).1 =
+      [.notfound, .failed (.reported "PCORE_WRONG_DEFINITION" (some ["env", "types", "wrong.pp"]) 0), .notfound,
+       .failed (.reported "PCORE_WRONG_DEFINITION" (some ["env", "types", "wrong2.pp"]) 0), .found ⟨.object, ["Real"]⟩] ∧
+    (runLoads 9 wrongCfg {} [["Real"], ["Wrong2"], ["Real"]]).1 =
+      [.found ⟨.object, ["Real"]⟩, .failed (.reported "PCORE_WRONG_DEFINITION" (some ["env", "types", "wrong2.pp"]) 0),
+       .found ⟨.object, ["Real"]⟩] ∧
+    (runLoads 9 wrongCfg {} [["Wrong2"], ["Real"]]).2.reads = [["env", "types", "wrong2.pp"], ["env", "types", "real.pp"]] := by
+  refine ⟨?_, by decide, by decide, by decide⟩
+  show keyOf ["Other"] ≠ keyOf ["Wrong"]
+  decide
+
 /-! ## negation witnesses for the known findings -/
 
 /-- known finding C15-misnamed-no-line: the error for a misnamed file names the file but no line (`C15_error_full` asks
@@ -405,5 +538,19 @@ theorem C15_duplicate_redefine :
     (runLoads 40 dupCfg {} [["Mymod", "Thing"], ["Mymod", "Thing"]]).2.reads =
       [["env", "types", "mymod", "thing.pp"], ["modules", "mymod", "types", "thing.pp"]] := by
   decide
+
+/-- the full "found ⇔ a justified definition exists" is false as stated: for the layout of `C15_duplicate_redefine` the
+    first lookup reports a redefinition although a file at the derived path defines the name -/
+theorem C15_found_iff_fails : ¬ C15_found_iff_full := by
+  intro h
+  have h1 := (h dupCfg ["Mymod", "Thing"] 5000 (Nat.le_refl _) (by decide)).mpr
+    ⟨⟨.object, ["Mymod", "Thing"]⟩, rfl, by decide,
+      Or.inr ⟨["env", "types", "mymod", "thing.pp"], .typ .object ["Mymod", "Thing"] [], by decide,
+        Or.inl ⟨[], rfl, .g, Or.inl (by decide)⟩⟩⟩
+  obtain ⟨d, hd⟩ := h1
+  have h2 : (loadS 5000 dupCfg {} ["Mymod", "Thing"]).1 = .failed (.reported "PCORE_ATTEMPT_TO_REDEFINE_TYPE" none 0) := by
+    decide
+  rw [h2] at hd
+  cases hd
 
 end Pcore.Files
